@@ -103,6 +103,17 @@ fn one_shot(ctx: &mut Ctx, name: &str, x: &[u8], codec: u8, rng: &mut Rng, py_di
             return;
         }
     };
+    // a failed call right before must not influence the next one (no state carried between calls): feed a
+    // truncated and a corrupted copy of the stream first; whatever they return is not judged here
+    if codec != R::C_NONE && z.len() >= 4 {
+        let cut = z.len() - (z.len() / 3).max(1);
+        let _ = guard(|| decompress_all(comp, &z[..cut]).map(|y| y.len()));
+        let mut bad = z.clone();
+        let at = bad.len() / 2;
+        bad[at] ^= 0x55;
+        let _ = guard(|| decompress_all(comp, &bad).map(|y| y.len()));
+        ctx.count("failed_calls_before_valid_one");
+    }
     match guard(|| decompress_all(comp, &z)) {
         Ok(Ok(y)) if y == x => ctx.count("one_shot_inverse_ok"),
         Ok(Ok(y)) => ctx.violation("util::decompress_all", "not-inverse", "decompress_all(compress_all(x)) != x", &format!("{} bytes in, {} bytes back", x.len(), y.len()), mat(name, x, codec, "one-shot")),
@@ -416,6 +427,27 @@ pub fn run(ctx: &mut Ctx) {
             ctx.case(hash_bytes(&x), true);
             ctx.max("payload_bytes", x.len() as u64);
             ctx.count("payload.multi_megabyte");
+            ctx.end(case);
+        }
+        case += 1;
+    }
+    // ---- extreme compression ratios above 16 MiB of output (far beyond 1000:1)
+    for (k, n) in [(17usize << 20) + 5, (33 << 20) + 1].iter().enumerate() {
+        if k == 1 && ctx.quick() {
+            case += 1;
+            continue;
+        }
+        if ctx.mine(case) {
+            ctx.begin(case);
+            let mut rng = ctx.rng("c14.ratio", k as u64);
+            let x: Vec<u8> = if k == 0 { vec![0u8; *n] } else { b"tile".iter().copied().cycle().take(*n).collect() };
+            for codec in R::CODECS {
+                one_shot(ctx, "extreme ratio", &x, codec, &mut rng, None, &mut 0);
+            }
+            streamed(ctx, "extreme ratio", &x, R::C_ZSTD, &Sched::Fixed(1 << 20), &Sched::Fixed(65_536), false, &mut rng);
+            ctx.case(hash_bytes(&x[..1000]) ^ *n as u64, true);
+            ctx.max("payload_bytes", x.len() as u64);
+            ctx.count("payload.extreme_ratio");
             ctx.end(case);
         }
         case += 1;
